@@ -90,6 +90,10 @@ class ReadReplay:
         if (ex is None) != exp_ok:
             if exp_ok:
                 self.vio.violation(f"raises:WIN.from_w90_file:{ex.split(':')[0]}", dict(det, exception=ex, expected="the file is read"))
+            elif s["mpp"] == "wrong" and any(k != "mp_grid" and k.lower() == "mp_grid" for k in w.data):
+                # the contradicting mp_grid was stored under another spelling of the keyword and never compared
+                self.vio.violation("WIN.from_w90_file:keyword_case", dict(det, key="mp_grid", stored_as=[k for k in w.data if k.lower() == "mp_grid"],
+                                                                          expected="refused: mp_grid contradicts the k-points"))
             else:
                 self.vio.violation("WIN.from_w90_file:accepted:" + ("mp_grid_mismatch" if s["mpp"] == "wrong" else "kpoints_off_mesh"),
                                    dict(det, expected="refused: " + s["rd"]["err"]))
@@ -438,7 +442,8 @@ def lines_from_data(rng, data):
 
 
 def corrupt(rec):
-    """a copy of a record with one recorded field changed, and the clause that has to notice"""
+    """a copy of a record with one recorded field changed, and the clause that has to notice (None, None when the record
+    offers nothing to corrupt)"""
     r = copy.deepcopy(rec)
     if r["kind"] == "roundtrip" and r["out"]["err"] == "" and r["out"]["data"]:
         for p in r["out"]["data"]:
